@@ -3714,6 +3714,15 @@ class Session(_SessionClassMethods, EventTarget):
             else:
                 return
 
+        if (
+            not head
+            and state._deleted
+            and state.session_id == self.hash_key
+        ):
+            # reached by a delete cascade but already DELETEd by a flush of
+            # this Session's transaction ("deleted" state): nothing to mark
+            return
+
         to_attach = self._before_attach(state, obj)
 
         if state in self._deleted:
